@@ -215,3 +215,49 @@ def unit_models(st, atoms, limit=1 << 17):
     except KeyError as e:
         return None, 'a fact that cannot be evaluated (%s)' % (e,)
     return out, mixed
+
+
+# ------------------------------------------------------------------------------------------------
+# where a pointer operand comes from (SSA, after mem2reg)
+
+OWN_ACCESSOR_RE = re.compile(r'^(ST::string::(c_str|data|begin|cbegin|end|cend)\(|ST::buffer<[^>]*>::(data|c_str|begin|cbegin|end|cend)\(|'
+                             r'ST::string_stream::raw_buffer\()')
+
+
+def pointer_roots(m, f, op, depth=0, seen=None):
+    """Roots of a pointer operand through casts, address arithmetic, phi and select: a set of
+    ('own', callee)   result of a storage accessor (c_str(), data(), begin(), ...) of a string / buffer object
+    ('param', k)      a pointer parameter of the function itself (k-th IR parameter)
+    ('const',)        null / a constant global
+    ('other', what)   anything else (a load, another call, ...): provenance not known"""
+    if seen is None:
+        seen = set()
+    if op[0] in ('n', 'g', 'ce', 'z', 'u'):
+        return set([('const',)])
+    if op[0] != 'v':
+        return set([('other', op[0])])
+    if op[1] in seen or depth > 12:
+        return set()
+    seen.add(op[1])
+    if op[1] < f.nargs:
+        return set([('param', op[1])])
+    i = f.inst(op[1])
+    if i is None:
+        return set([('other', 'unknown value')])
+    if i.op in ('bitcast', 'addrspacecast'):
+        return pointer_roots(m, f, i.a[0], depth + 1, seen)
+    if i.op == 'getelementptr':
+        return pointer_roots(m, f, i.d['base'], depth + 1, seen)
+    if i.op == 'phi':
+        out = set()
+        for x in i.d.get('inc', []):
+            out |= pointer_roots(m, f, x[0], depth + 1, seen)
+        return out
+    if i.op == 'select':
+        return pointer_roots(m, f, i.a[1], depth + 1, seen) | pointer_roots(m, f, i.a[2], depth + 1, seen)
+    if i.op in ('call', 'invoke') and i.callee:
+        d = m.dem(i.callee)
+        if OWN_ACCESSOR_RE.match(d):
+            return set([('own', d.split('(')[0])])
+        return set([('other', 'result of ' + d.split('(')[0][:60])])
+    return set([('other', i.op)])
